@@ -90,12 +90,15 @@ func genBookGames(rng *Rng, n int) []bookGame {
 			}
 		}
 		plies := 4 + rng.Intn(36)
+		if rng.Chance(10) { // a long game: with annotations its move text runs to several thousand bytes
+			plies = 150 + rng.Intn(150)
+		}
 		for len(g.moves) < plies {
 			legal := w.legalMoves(p)
 			if len(legal) == 0 {
 				break
 			}
-			if rng.Chance(2) && len(g.moves) > 2 { // an illegal move ends the usable part
+			if plies <= 40 && rng.Chance(2) && len(g.moves) > 2 { // an illegal move ends the usable part
 				g.uci = append(g.uci, "e1e8", "e2e4")
 				g.san = append(g.san, "Qxz9", "e4")
 				g.illegal = true
@@ -177,10 +180,15 @@ func renderPgn(games []bookGame, rng *Rng) string {
 	for gi, g := range games {
 		res := results[rng.Intn(len(results))]
 		fmt.Fprintf(&sb, "[Event \"Test %d\"]\n[Site \"?\"]\n[White \"A, B.\"]\n[Black \"C [D]\"]\n[Result \"%s\"]\n\n", gi, res)
-		clk := rng.Chance(25) // an export with a clock comment after every move: wrapped lines then often start with '[' and end with ']'
+		long := len(g.moves) > 100
+		verbose := !long && rng.Chance(12)                              // long annotations and no line wrapping: one physical line of several thousand bytes
+		clk := !verbose && (rng.Chance(25) || (long && rng.Chance(50))) // an export with a clock comment after every move: wrapped lines then often start with '[' and end with ']'
 		line := sanLine(g, func(i int) string {
 			if clk {
 				return fmt.Sprintf("{ [%%clk 0:%02d:%02d] } ", 2+i%3, 59-i%60)
+			}
+			if verbose {
+				return "{ " + strings.Repeat("the position is about equal and both sides keep manoeuvring ", 1+rng.Intn(4)) + fmt.Sprintf("[%%eval 0.%02d] } ", i%100)
 			}
 			switch rng.Intn(12) {
 			case 0:
@@ -201,7 +209,10 @@ func renderPgn(games []bookGame, rng *Rng) string {
 		if rng.Chance(30) {
 			width = 25 + rng.Intn(60)
 		}
-		insideStyle := clk && rng.Bool() // the exporter breaks lines inside the comments: before "[%clk" and after "...]"
+		if verbose || rng.Chance(15) || (long && rng.Chance(50)) { // no wrapping: the whole move text on one physical line
+			width = 1 << 30
+		}
+		insideStyle := clk && width < 1000 && rng.Bool() // the exporter breaks lines inside the comments: before "[%clk" and after "...]"
 		for wi, wd := range words {
 			brk := col+len(wd) > width
 			if insideStyle {
@@ -434,6 +445,7 @@ func c20Monitor(args []string) int {
 			ioutil.WriteFile(cache, v, 0644)
 			rep.Cases++
 			in := map[string]interface{}{"collection": c, "variant": names[vi], "cache_bytes": len(full), "seed": seed}
+			setCurrent(in)                       // a panic inside Initialize (it runs in its own goroutine) kills the process: the driver reports this input
 			for round := 0; round < 2; round++ { // repeated initialisation in one process
 				ioutil.WriteFile(cache, v, 0644)
 				b, err, hung := buildBook(dir, "book.txt", openingbook.San, true)
